@@ -45,7 +45,10 @@ def run_obligations(rep: Report, modname: str, specs: list):
         if spec.get("split") is not None:
             env["XH_SPLIT"] = str(spec["split"])
         to = spec["timeout"]
-        return spec, _run(["check", modname, spec["fn"], str(to), str(spec.get("ppt", to))], env, to * 2 + 120)
+        r = _run(["check", modname, spec["fn"], str(to), str(spec.get("ppt", to))], env, to * 2 + 120)
+        if r[0] is None or not r[0].get("messages"):          # worker died or found no condition (e.g. the harness file changed under it): one retry
+            r = _run(["check", modname, spec["fn"], str(to), str(spec.get("ppt", to))], env, to * 2 + 120)
+        return spec, r
 
     with ThreadPoolExecutor(NCPU) as ex:
         results = list(ex.map(one, specs))
